@@ -48,6 +48,7 @@ class State:
         self.bytes_recv = 0
         self.exclude_fds: set = set()
         self.fail_nonloopback = True
+        self.fault_filter: Optional[Callable[[str, Any, Any], bool]] = None
 
     def reset(self) -> None:
         self.short_write_p = 0.0
@@ -60,6 +61,7 @@ class State:
         self.log = None
         self.bytes_sent = 0
         self.bytes_recv = 0
+        self.fault_filter = None
 
 
 S = State()
@@ -74,7 +76,16 @@ def _count(name: str, n: int = 1) -> None:
     S.counts[name] = S.counts.get(name, 0) + n
 
 
-def _maybe_fault(kind: str) -> None:
+def _maybe_fault(kind: str, sock: Any = None, addr: Any = None) -> None:
+    flt = S.fault_filter
+    if flt is not None:
+        # only calls on the sockets of the connection under attack are counted and faulted (so that a fault can never
+        # hit a well-behaved neighbour's own socket - that would legitimately change the neighbour's transcript)
+        try:
+            if not flt(kind, sock, addr):
+                return
+        except Exception:
+            return
     idx = S.call_index.get(kind, 0)
     S.call_index[kind] = idx + 1
     f = S.fault
@@ -89,7 +100,7 @@ def _send(self: socket.socket, data: Any, *a: Any) -> int:
         return _orig_send(self, data, *a)
     with _lock:
         _count('send')
-        _maybe_fault('send')
+        _maybe_fault('send', self)
         n = len(data)
         nonblocking = self.gettimeout() == 0.0
         r = S.rng.random()
@@ -118,7 +129,7 @@ def _recv(self: socket.socket, bufsize: int, *a: Any) -> bytes:
         return _orig_recv(self, bufsize, *a)
     with _lock:
         _count('recv')
-        _maybe_fault('recv')
+        _maybe_fault('recv', self)
         if S.recv_cap:
             cap = S.rng.choice(S.recv_cap)
             if cap is not None and cap < bufsize:
@@ -136,7 +147,7 @@ def _connect(self: socket.socket, addr: Any) -> None:
         return _orig_connect(self, addr)
     with _lock:
         _count('connect')
-        _maybe_fault('connect')
+        _maybe_fault('connect', self, addr)
     if S.fail_nonloopback and isinstance(addr, tuple) and len(addr) >= 2 and isinstance(addr[0], str):
         try:
             if not ipaddress.ip_address(addr[0]).is_loopback and not addr[0].startswith('::ffff:127.'):
